@@ -329,6 +329,41 @@ def grid_domain_or_discard(case, lat, lon):
         raise Discard()
 
 
+def oracle_inverse(case, zone=None, east=None, north=None, hemi=None):
+    """(lat, lon) of a grid coordinate from the exact projection (Newton on the forward oracle): no code of the library involved."""
+    a, invf = S.ellipsoid_params(case["ell"])
+    fe, fn, k0, zw, cm1, kind = S.projection_params(case["prj"])
+    zone = case["zone"] if zone is None else zone
+    east = case["east"] if east is None else east
+    north = case["north"] if north is None else north
+    hemi = (case.get("hemi") or "south") if hemi is None else hemi
+    n = (float(north) - (fn if str(hemi).lower() == "south" else 0.0)) / k0
+    r = tm_exact.exact_tm_inverse(n, (float(east) - fe) / k0, a, invf)
+    if r is None:
+        raise Discard()         # a northing beyond the pole
+    return r[0], cm_of(case["prj"], zone) + r[1]
+
+
+def grid_predomain_or_discard(case, zone=None, east=None, north=None, hemi=None):
+    """C02's quantifier decided WITHOUT the library: accepted E/N range, latitude inside the band, |lon - CM| <= 30, lon in
+    [-180, 180] (each with a margin of 2e-6 deg, so that the library's own answer, if right to a decimetre, lies in the domain
+    of the forward conversion as well).  A case that passes is in the domain: whatever the library then does with it -
+    an exception, a latitude outside the band - is judged, not discarded."""
+    e = case["east"] if east is None else east
+    n = case["north"] if north is None else north
+    grid_range_or_discard(e, n)
+    lat, lon = oracle_inverse(case, zone, east, north, hemi)
+    h = (case.get("hemi") or "south") if hemi is None else hemi
+    if not (-80.0 + 2e-6 <= lat <= 84.0 - 2e-6):
+        raise Discard()
+    if (str(h).lower() == "south") != (lat < 0.0) and abs(lat) > 1e-9:
+        raise Discard()          # (a northing beyond the equator for its hemisphere label: no such grid coordinate)
+    cm = cm_of(case["prj"], case["zone"] if zone is None else zone)
+    if abs(lon - cm) > 30.0 - 2e-6 or not (-180.0 + 2e-6 <= lon <= 180.0 - 2e-6):
+        raise Discard()
+    return lat, lon
+
+
 def grid_range_or_discard(east, north):
     """The inverse conversion documents (and enforces) eastings in [-2 830 000, 3 830 000] and northings in [0, 1e7]."""
     if not (-2830000.0 <= east <= 3830000.0) or not (0.0 <= north <= 10000000.0):
